@@ -36,6 +36,7 @@ type fsShared struct {
 	reads    [maxOps][maxFiles]int32  // content reads (ReadFile/Open) per operation per file
 	fired    [8]int64                 // fault kinds fired
 	ncalls   int64
+	touch    [maxFiles]int32       // accesses per file since the edits were armed
 	curOp    [simrt.MaxTasks]int32 // operation each task is executing
 	faulted  [maxOps]bool          // an injected fault fired during this operation
 }
@@ -44,7 +45,7 @@ type fsShared struct {
 type SimFS struct {
 	files  []*simFile
 	index  map[string]int // read-only after construction
-	edits  []EditEvent    // sorted by step; read-only
+	edits  []simEdit      // sorted by step; a call-triggered edit gets its step when it fires
 	faults map[[2]int]FaultSpec
 	sh     *fsShared
 	// edit events count kernel steps from the moment the harness arms them (after the engine is constructed and
@@ -53,6 +54,14 @@ type SimFS struct {
 	editBase int64
 	jitter   bool // every stat of a file reports a later mtime than the one before
 }
+
+// simEdit is an edit event plus the index of the file whose accesses trigger it (-1: timed by step).
+type simEdit struct {
+	EditEvent
+	on int
+}
+
+const neverStep = int64(1) << 62
 
 var faultKinds = []string{"eio", "enoent", "perm", "short", "readerr", "fstat"}
 
@@ -72,7 +81,20 @@ func NewSimFS(files []FileSpec, edits []EditEvent, faults []FaultSpec) *SimFS {
 		s.index[f.Name] = i
 		s.sh.cur[i] = int32(f.Initial)
 	}
-	s.edits = append(s.edits, edits...)
+	for _, e := range edits {
+		se := simEdit{EditEvent: e, on: -1}
+		if e.AtCall > 0 {
+			on := e.On
+			if on == "" {
+				on = e.File
+			}
+			if i, ok := s.index[on]; ok {
+				se.on = i
+				se.Step = neverStep
+			}
+		}
+		s.edits = append(s.edits, se)
+	}
 	sort.SliceStable(s.edits, func(i, j int) bool { return s.edits[i].Step < s.edits[j].Step })
 	for _, f := range faults {
 		s.faults[[2]int{f.Op, f.N}] = f
@@ -133,7 +155,52 @@ func (s *SimFS) version(i int) int {
 }
 
 // ArmEdits makes the scheduled edit events take effect, counting kernel steps from now.
-func (s *SimFS) ArmEdits() { s.armed = true; s.editBase = simrt.Step() }
+//
+//go:norace
+func (s *SimFS) ArmEdits() {
+	s.armed = true
+	s.editBase = simrt.Step()
+	for i := range s.sh.touch {
+		s.sh.touch[i] = 0
+	}
+}
+
+// EffectiveEdits returns the edit events that took effect, each with the step at which it did (harness use, after
+// the tasks ended).
+func (s *SimFS) EffectiveEdits() []EditEvent {
+	var out []EditEvent
+	for k := range s.edits {
+		if s.edits[k].Step < neverStep {
+			out = append(out, s.edits[k].EditEvent)
+		}
+	}
+	return out
+}
+
+// touched counts an access of file i and fires the call-triggered edits waiting for it. No library call in here:
+// the edit list is plain memory shared by the tasks under the baton (see simrt), invisible to the race detector
+// only as long as instrumented code does not touch it.
+//
+//go:norace
+func (s *SimFS) touched(i int) {
+	if !s.armed || i >= maxFiles {
+		return
+	}
+	s.sh.touch[i]++
+	n := int(s.sh.touch[i])
+	now := simrt.Step() - s.editBase
+	for k := 0; k < len(s.edits); k++ {
+		e := &s.edits[k]
+		if e.on != i || e.Step < neverStep || n < e.AtCall {
+			continue
+		}
+		e.Step = now
+		// keep the list sorted by step: move the fired edit in front of the later and the unfired ones
+		for j := k; j > 0 && s.edits[j-1].Step > s.edits[j].Step; j-- {
+			s.edits[j-1], s.edits[j] = s.edits[j], s.edits[j-1]
+		}
+	}
+}
 
 // DropEdits forgets the scheduled edit events (harness use, after the tasks ended: versions are then set explicitly).
 func (s *SimFS) DropEdits() { s.edits = nil }
@@ -155,6 +222,7 @@ func (s *SimFS) note(i, v int, read bool) {
 			s.sh.reads[op][i]++
 		}
 	}
+	s.touched(i)
 }
 
 // enter is the kernel entry of every fs call: scheduling point + fault decision.
